@@ -327,6 +327,27 @@ func propC11(rec *stats.Rec, sc *scratch, exclude map[string]bool) func(t *rapid
 				exists[d] = false
 				record(t, fmt.Sprintf("renameDirAway %s", rel(d)))
 			},
+			"renameDirOnto": func(t *rapid.T) { // one configured directory is renamed to the path of another, missing one
+				var from, to []string
+				for _, d := range dirs {
+					if exists[d] {
+						from = append(from, d)
+					} else {
+						to = append(to, d)
+					}
+				}
+				if len(from) == 0 || len(to) == 0 {
+					t.Skip("needs an existing and a missing configured directory")
+				}
+				a := rapid.SampledFrom(from).Draw(t, "from")
+				b := rapid.SampledFrom(to).Draw(t, "to")
+				if strings.HasPrefix(b, a+"/") || strings.HasPrefix(a, b+"/") {
+					t.Skip("nested")
+				}
+				_ = os.MkdirAll(filepath.Dir(b), 0o755)
+				_ = os.Rename(a, b)
+				record(t, fmt.Sprintf("renameDirOnto %s -> %s", rel(a), rel(b)))
+			},
 			"renameDirIn": func(t *rapid.T) { // a complete directory appears at a configured path in one rename
 				var missing []string
 				for _, d := range dirs {
